@@ -74,6 +74,12 @@ async fn query_nameserver_udp_notimeout(
     address: SocketAddr,
     serialised_request: &mut [u8],
 ) -> Option<Message> {
+    #[cfg(resolved_verif)]
+    if serialised_request.len() <= 512 {
+        if let Some(reply) = crate::verif::transport(address, false, serialised_request).await {
+            return reply.and_then(|bytes| Message::from_octets(&bytes).ok());
+        }
+    }
     if serialised_request.len() > 512 {
         return None;
     }
@@ -109,6 +115,10 @@ async fn query_nameserver_tcp_notimeout(
     address: SocketAddr,
     serialised_request: &mut [u8],
 ) -> Option<Message> {
+    #[cfg(resolved_verif)]
+    if let Some(reply) = crate::verif::transport(address, true, serialised_request).await {
+        return reply.and_then(|bytes| Message::from_octets(&bytes).ok());
+    }
     let mut stream = TcpStream::connect(address).await.ok()?;
     send_tcp_bytes(&mut stream, serialised_request).await.ok()?;
     let bytes = read_tcp_bytes(&mut stream).await.ok()?;
